@@ -140,3 +140,32 @@ def _f21(hist, mm):
     if not all(m['layer'] == 'L0' for m in mm):
         return False
     return any(st.get('op') == 'degrade' and st.get('reduction') == 'and' for st in hist)
+
+
+@signature('F25')
+def _f25(hist, mm):
+    """make_uniform_randoms on a footprint touching lon 0: starvation west of 0 or non-termination"""
+    if not any(('did not terminate' in m['what']) or ('never fall' in m['what']) for m in mm):
+        return False
+    return any(st.get('op') == 'rand' and st.get('kind') == 'slow' for st in hist)
+
+
+def _cat_inputs(hist):
+    cat = [st for st in hist if st.get('op') == 'cat']
+    if not cat:
+        return []
+    hs = set(cat[0]['hs'])
+    return [st for st in hist if st.get('op') == 'mk' and st.get('h') in hs]
+
+
+@signature('F40')
+def _f40(hist, mm):
+    ins = _cat_inputs(hist)
+    return bool(ins) and all(st.get('kind') == 'plain' and st.get('dtype') == 'b' for st in ins) and \
+        any('result parameters' in m['what'] or 'values' in m['what'] for m in mm)
+
+
+@signature('F41')
+def _f41(hist, mm):
+    ins = _cat_inputs(hist)
+    return bool(ins) and all(st.get('kind') == 'wide' for st in ins) and any('cannot reshape' in m['what'] for m in mm)
